@@ -25,6 +25,15 @@ class P(framework.Prop):
             a = gen.rand_ast(rng, rng.choice([1, 2, 3, 4, 5]))
             d = rng.choice(docs) if rng.random() < 0.7 else gen.rand_doc(rng, 3)
             out.append('evalast " %s %s' % (a, wire.val(d)))
+        # slices through the interpreter: bounds around the array ends (incl. exactly -len), both step signs
+        for n in range(0, 5):
+            arr = wire.val(list(range(n)))
+            bounds = [None] + list(range(-n - 1, n + 2))
+            for a in bounds:
+                for b in bounds:
+                    for c in (1, -1, 2, -2):
+                        if tier != "quick" or rng.random() < 0.35:
+                            out.append('evalast " Proj Slice 0 %s %s %d Identity %s' % (wire.optint(a), wire.optint(b), c, arr))
         cs = [c for c in gen.compliance_cases() if gen.doc_ok(c[1])]
         givens = []
         for c in cs:
